@@ -184,6 +184,18 @@ func jumpCase(c *caseOut, r *prng.R, long bool) {
 		}
 	}
 	c.line(fmt.Sprintf("cfg srh=true mtb=%d rub=true gcp=0", h.MTB), "ok")
+	if firstMarker >= 0 && jumpEnd-firstMarker == 4 {
+		// tie: the four batches of jumpToStateInternal against the model's jump stages
+		c.line(fmt.Sprintf("synced %d %d %d", P, h.N(), h.MTB), "ok")
+		dbb := fold(bs, firstMarker)
+		for _, b := range bs[firstMarker:jumpEnd] {
+			c.line("jbatch "+semAbstract(dbb, b, true), "ok")
+			apply(dbb, b)
+		}
+		c.line("jdone", "ok")
+	} else {
+		c.cnt.count("jump:tie-skipped")
+	}
 	for k := 0; k <= len(bs); k++ {
 		db := fold(bs, k)
 		rs := NewRecStore(materialise(db))
